@@ -326,6 +326,18 @@ def correspondence(ctx):
                 d = pairs_vs_loop(p, kind, prs, a, b, norm=norm)
                 if d:
                     ctx.pred_fail(f'pairs:{kind}', case, d)
+            if li % 4 == 0 and kind in ('zern', 'q2d', 'xy'):
+                dt = ('int64', 'float32', 'int32')[(li // 4) % 3]
+                if dt.startswith('int'):
+                    ai = np.asarray(rng.integers(0, 2, size=np.shape(a)) if kind != 'xy' else rng.integers(-2, 3, size=np.shape(a)), dtype=dt)
+                    bi = np.asarray(rng.integers(-2, 3, size=np.shape(a)), dtype=dt)
+                else:
+                    ai, bi = a.astype(dt), b.astype(dt)
+                case2 = {**case, 'dtype': dt}
+                ctx.case(f'pairs:{kind}', case2, nontrivial=len(prs) > 1, tag=f'dtype-{dt}')
+                d = pairs_vs_loop(p, kind, prs, ai, bi, norm=True, tol=2e-5 if dt == 'float32' else 1e-10)
+                if d:
+                    ctx.pred_fail(f'pairs:{kind}', case2, d)
             if kind == 'zern' and li % 2 == 0:
                 r0 = float(dyadic(rng, 0, 1, ()))
                 tp = [((n - abs(m)) // 2, abs(m)) for n, m in prs]
@@ -376,15 +388,15 @@ def correspondence(ctx):
             ctx.disagree('malformed:empty', {'family': fam}, 'accepted an empty order list', 'model: none')
 
 
-def pairs_vs_loop(p, kind, prs, a, b, norm=True):
+def pairs_vs_loop(p, kind, prs, a, b, norm=True, tol=1e-10):
     a0, b0 = np.array(a, copy=True), np.array(b, copy=True)
-    d = _pairs_vs_loop(p, kind, prs, a, b, norm)
+    d = _pairs_vs_loop(p, kind, prs, a, b, norm, tol)
     if d is None and not (np.array_equal(a, a0) and np.array_equal(b, b0)):
         return f'{kind} seq modified its coordinate arguments in place'
     return d
 
 
-def _pairs_vs_loop(p, kind, prs, a, b, norm=True):
+def _pairs_vs_loop(p, kind, prs, a, b, norm=True, tol=1e-10):
     try:
         if kind == 'zern':
             out = np.asarray(p.zernike_nm_seq(prs, a, b, norm=norm))
@@ -396,9 +408,9 @@ def _pairs_vs_loop(p, kind, prs, a, b, norm=True):
             want = (len(prs), 2, *np.shape(a))
             if out.shape != want:
                 return f'zernike_nm_der_seq returned shape {out.shape}, expected {want}'
-            if close(out, ref, 1e-10):
+            if close(out, ref, tol):
                 return None
-            bad = [list(prs[i]) for i in range(len(prs)) if not close(out[i], ref[i], 1e-10)]
+            bad = [list(prs[i]) for i in range(len(prs)) if not close(out[i], ref[i], tol)]
             return f'zernike_nm_der_seq(norm={norm}) differs from zernike_nm_der for pairs {bad[:4]} (request {[list(q) for q in prs][:8]})'
         elif kind == 'q2d':
             out = np.asarray(p.Q2d_seq(prs, a, b))
@@ -413,14 +425,33 @@ def _pairs_vs_loop(p, kind, prs, a, b, norm=True):
         elif kind == 'xy_grid':
             out = np.array([o * np.ones(np.shape(a)) for o in p.xy_seq(prs, a, b)])
             ref = np.array([p.xy(m, n, a, b) * np.ones(np.shape(a)) for m, n in prs])
+            # xy and xy_seq share optimize_xy_separable: also compare with the monomials computed directly on the meshgrid
+            direct = np.array([a ** m * b ** n for m, n in prs])
+            bad = rows_close(ref, direct, tol)
+            if bad:
+                return (f'xy with the default cartesian_grid=True on a meshgrid differs from x^m y^n for pairs '
+                        f'{[list(prs[i]) for i in bad[:4]]}')
     except Exception as ex:
         return f'raised {type(ex).__name__}: {ex}'
     want = (len(prs), *np.shape(a))
     if out.shape != want:
         return f'{kind} seq returned shape {out.shape}, expected {want}'
-    if not close(out, ref, 1e-10):
-        bad = [list(prs[i]) for i in range(len(prs)) if not close(out[i], ref[i], 1e-10)]
-        return f'{kind} seq{"" if norm else "(norm=False)"} differs from the single-mode function for pairs {bad[:4]}'
+    bad = rows_close(out, ref, tol)
+    if bad:
+        return (f'{kind} seq{"" if norm else "(norm=False)"} differs from the single-mode function for pairs '
+                f'{[list(prs[i]) for i in bad[:4]]}')
+    if kind == 'q2d':
+        # independent azimuthal convention (Q2d and Q2d_seq share their tables): mode (n, m) = R_n^|m|(u) cos(m t) for m > 0,
+        # R_n^|m|(u) sin(|m| t) for m < 0, Qbfs_n(u) for m = 0, with R read off at t = 0
+        for i, (n, m) in enumerate(prs):
+            if m == 0:
+                want_i = p.Qbfs(n, a) * np.ones(np.shape(a))
+            else:
+                rad = p.Q2d(n, abs(m), a, np.zeros(np.shape(a))) * np.ones(np.shape(a))
+                want_i = rad * (np.cos(m * b) if m > 0 else np.sin(abs(m) * b))
+            if not close(out[i], want_i, tol):
+                return (f'Q2d_seq mode {[n, m]} is not R_n^|m|(u) * {"cos(m t)" if m > 0 else "sin(|m| t)" if m < 0 else "1 (= Qbfs)"} '
+                        f'(azimuthal convention)')
     return None
 
 
@@ -499,9 +530,10 @@ def replay(inp):
             a, b = np.meshgrid(xs, ys)
             kind = 'xy_grid'
         else:
-            a = _det_coords(shp, 0.1, 0.9)
-            b = _det_coords(shp, -0.8, 0.7)
-        d = pairs_vs_loop(p, kind, [tuple(q) for q in c['pairs']], a, b, norm=bool(c.get('norm', True)))
+            dt = c.get('dtype', 'float64')
+            a = _det_coords(shp, 0, 1, dt) if dt.startswith('int') else _det_coords(shp, 0.1, 0.9, dt)
+            b = _det_coords(shp, -2, 2, dt) if dt.startswith('int') else _det_coords(shp, -0.8, 0.7, dt)
+        d = pairs_vs_loop(p, kind, [tuple(q) for q in c['pairs']], a, b, norm=bool(c.get('norm', True)), tol=2e-5 if c.get('dtype') == 'float32' else 1e-10)
     elif fam in FAMS:
         lo, hi = FAMS[fam][3]
         k = tuple(c.get('params', FAMS[fam][2][0]))
